@@ -36,18 +36,19 @@ const (
 )
 
 type vCluEnv struct {
-	c        *client
-	made     map[string]int
-	clients  []*vCluRC
-	lookups  int
-	dials    int
-	probes   int
-	sleeps   []time.Duration
-	budget   int // remaining scripted misbehaviours; afterwards the cluster is stable
-	replaced hrpc.RegionInfo
-	closedAt int // dials/lookups observed after Close returned
-	closed   bool
-	userOut  []int // scripted outcomes for user requests
+	c          *client
+	made       map[string]int
+	clients    []*vCluRC
+	lookups    int
+	dials      int
+	probes     int
+	sleeps     []time.Duration
+	budget     int // remaining scripted misbehaviours; afterwards the cluster is stable
+	replaced   hrpc.RegionInfo
+	closedAt   int // dials/lookups observed after Close returned
+	closed     bool
+	userOut    []int // scripted outcomes for user requests
+	twoRegions bool
 }
 
 var vClu *vCluEnv
@@ -68,7 +69,6 @@ func (e *vCluEnv) misbehave() bool {
 }
 
 func (r *vCluRC) Dial(ctx context.Context) error {
-	verifYield()
 	e := r.env
 	e.dials++
 	if e.closed {
@@ -109,7 +109,6 @@ func (r *vCluRC) answer(c hrpc.Call) {
 }
 
 func (r *vCluRC) QueueRPC(c hrpc.Call) {
-	verifYield()
 	r.env.probes++
 	r.answer(c)
 }
@@ -158,6 +157,12 @@ func vLookupRegion(c *client, ctx context.Context, table, key []byte) (hrpc.Regi
 		return e.replaced, "rs1:1", nil
 	}
 	// the region is where it was; build a fresh RegionInfo like a meta scan does
+	if e.twoRegions {
+		if len(key) > 0 && key[0] >= 'm' {
+			return vMkRegion(0, 2, []byte("m"), nil), "rs0:1", nil
+		}
+		return vMkRegion(0, 1, nil, []byte("m")), "rs0:1", nil
+	}
 	return vMkRegion(0, 1, nil, nil), "rs0:1", nil
 }
 
@@ -221,4 +226,92 @@ func VerifEstablish() {
 	}
 	verifAssert(verifGoroutines() == 0, "no goroutine is left")
 	verifObserveInt("lookups", e.lookups)
+}
+
+type vUserResult struct {
+	err  error
+	done bool
+}
+
+// vUserGet issues one get through the public path and records how it ended.
+func vUserGet(c *client, ctx context.Context, key string, out *vUserResult, fin chan struct{}) {
+	g, err := hrpc.NewGet(ctx, []byte("t"), []byte(key))
+	if err != nil {
+		panic(err)
+	}
+	_, out.err = c.SendRPC(g)
+	out.done = true
+	if fin != nil {
+		fin <- struct{}{}
+	}
+}
+
+// VerifSendRPCFaults (C04 end-to-end, bounded): one request for a key of a cached or unknown
+// region, any script of up to FAULTS cluster misbehaviours (request answered not-serving /
+// server-error / retry-later, dial failure, probe failures, meta listing a replacement region
+// or no table) followed by a stable cluster: the request succeeds against the region's current
+// connection, or returns TableNotFound when the script removed the table; it never returns a
+// retryable error.
+func VerifSendRPCFaults() {
+	c, e := vCluSetup()
+	if verifBool() {
+		// the region is already known and online
+		reg := vMkRegion(0, 1, nil, nil)
+		c.regions.put(reg)
+		reg.SetClient(c.clients.put("rs0:1", reg, func() hrpc.RegionClient { return e.factory("rs0:1", "", 0, 0, "", 0, nil, nil, nil) }))
+	}
+	var res vUserResult
+	vUserGet(c, context.Background(), "k", &res, nil)
+	verifQuiesce()
+	sleepAndIncreaseBackoffOverride = nil
+	verifAssert(res.done, "the request returns once the cluster is stable")
+	if res.err != nil {
+		verifAssert(res.err == TableNotFound, "only a real error surfaces: the table is gone")
+		verifReach("table-gone")
+	} else {
+		verifReach("succeeded")
+	}
+	for _, r := range vTreeContents(&c.regions) {
+		if r.Context().Err() == nil {
+			verifAssert(!r.IsUnavailable(), "no live cached region remains marked unavailable")
+		}
+	}
+	verifAssert(verifGoroutines() == 0, "no goroutine is left")
+}
+
+// VerifTwoCallers (C09-H2): two concurrent requests for two regions that share one
+// connection, faults injected by the script (connection loss seen by either request,
+// not-serving bursts, replacement while waiting), every interleaving within the delay bound:
+// no panic, both requests return, nothing stays blocked, no live cached region stays unavailable.
+func VerifTwoCallers() {
+	c, e := vCluSetup()
+	ra, rb := vMkRegion(0, 1, nil, []byte("m")), vMkRegion(0, 2, []byte("m"), nil)
+	shared := e.factory("rs0:1", "", 0, 0, "", 0, nil, nil, nil)
+	for _, r := range []hrpc.RegionInfo{ra, rb} {
+		c.regions.put(r)
+		r.SetClient(c.clients.put("rs0:1", r, func() hrpc.RegionClient { return shared }))
+	}
+	e.twoRegions = true
+	if verifParam("BUSY") == 1 {
+		// region B is in the middle of an outage: marked unavailable, its establisher running
+		rb.SetClient(nil)
+		rb.MarkUnavailable()
+		go c.establishRegion(rb, "rs0:1")
+	}
+	fin := make(chan struct{}, 2)
+	var r1, r2 vUserResult
+	go vUserGet(c, context.Background(), "a", &r1, fin)
+	go vUserGet(c, context.Background(), "x", &r2, fin)
+	<-fin
+	<-fin
+	verifQuiesce()
+	sleepAndIncreaseBackoffOverride = nil
+	verifAssert(r1.done && r2.done, "both requests return")
+	for _, r := range vTreeContents(&c.regions) {
+		if r.Context().Err() == nil {
+			verifAssert(!r.IsUnavailable(), "no live cached region remains marked unavailable")
+		}
+	}
+	verifAssert(verifGoroutines() == 0, "no goroutine is left running or blocked")
+	verifReach("both-returned")
 }
